@@ -13,8 +13,12 @@ ASSUMPTIONS = [
 TERMINAL = {"completed", "submitted", "backed", "cancelled", "error", "aborted", "skipped", "removed"}
 
 
-def gen_scenario(seed, i):
+def gen_scenario(seed, i, plain=False):
     rng = Rng(seed * 86028121 + i)
+    if not plain and i % 10 == 3:
+        return call_catch_scenario(rng, i)
+    if not plain and i % 10 == 6:
+        return reload_scenario(seed, i)
     g = gen.WfGen(rng.fork("wf"), depth=rng.pick([1, 2]), max_steps=3, max_branches=2, max_acts=2, p_if=8, p_branches=35,
                   needs=False, mixed=False, act_kinds=((gen.IRQ, 7), (gen.MSG, 1)), catches=True)
     w = g.workflow("m1")
@@ -30,6 +34,47 @@ def gen_scenario(seed, i):
         ops.append(["act", "next", "p1", {"open": 0}, {}])
         ops.append(["runall"])
     return {"id": f"c06-{seed}-{i}", "config": {"keep": True, "dump_each": True}, "models": [w], "ops": ops, "exprs": g.exprs, "features": sorted(g.features)}
+
+
+def call_catch_scenario(rng, i):
+    """the error of a sub-process is returned to the calling act, which declares a catch: the handler runs once, the calling act then
+    completes and the flow goes on behind it, as if no error had happened"""
+    hacts = rng.pick([[], [{"id": "h1a", "uses": gen.MSG, "key": "kh1a"}], [{"id": "h1a", "uses": gen.IRQ, "key": "kh1a"}]])
+    c = {"steps": [{"id": "h1", "acts": hacts}] if (hacts or rng.chance(1, 2)) else []}
+    if rng.chance(1, 2):
+        c["on"] = "e1"
+    call = {"id": "call1", "uses": "acts.core.subflow", "params": {"to": "c1", "options": {"pid": "p1-call1"}}, "catches": [c]}
+    s1 = {"id": "s1", "acts": [call] + ([{"id": "a2", "uses": gen.IRQ, "key": "ka2"}] if rng.chance(1, 2) else [])}
+    if rng.chance(1, 3):
+        s1 = {"id": "s1", "branches": [{"id": "b1", "if": "(x == 0)", "steps": [{"id": "s1x", "acts": s1["acts"]}]},
+                                      {"id": "b2", "if": "(x == 0)", "steps": [{"id": "s1y", "acts": [{"id": "a3", "uses": gen.IRQ, "key": "ka3"}]}]}]}
+    parent = {"id": "m1", "steps": [s1, {"id": "s2", "acts": [{"id": "z", "uses": gen.IRQ, "key": "kz"}]}]}
+    child = {"id": "c1", "steps": [{"id": "cs1", "acts": [{"id": "ci", "uses": gen.IRQ, "key": "kci"}]}]}
+    pol = rng.pick(["fifo", "lifo", "rand"])
+    ops = [["deploy", 0], ["deploy", 1], ["start", "m1", {"pid": "p1", "x": 0, "y": 0}], ["runall", pol, rng.below(1 << 30)],
+           ["act", "error", "p1-call1", {"nid": "ci", "k": -1}, {"ecode": "e1", "message": "boom"}], ["runall", pol, rng.below(1 << 30)]]
+    for _ in range(6):
+        ops += [["act", "next", "p1", {"open": 0}, {}], ["runall", pol, rng.below(1 << 30)]]
+    return {"id": f"c06-call-{i}", "config": {"keep": True, "dump_each": True}, "models": [parent, child], "ops": ops,
+            "exprs": {"(x == 0)": ["bin", "==", ["var", "x"], ["lit", 0]]}, "features": ["call-catch"], "expect_completed": True}
+
+
+def reload_scenario(seed, i):
+    """the catches of a task are part of what a reload has to bring back: the process is dropped from the cache (in-memory store) or the
+    engine restarted (SQLite) before the error is raised"""
+    sc = gen_scenario(seed, 100000 + i, plain=True)
+    rng = Rng(seed * 9176 + i)
+    store = "sqlite" if i % 2 == 0 else "mem"
+    ops = []
+    for op in sc["ops"]:
+        if op[0] == "act" and rng.chance(2, 3):
+            ops.append(["restart"] if (store == "sqlite" and rng.chance(1, 2)) else ["evict", "p1"])
+        ops.append(op)
+    sc["ops"] = ops
+    sc["id"] = f"c06-reload-{seed}-{i}"
+    sc["config"] = {"keep": True, "dump_each": True, "store": store}
+    sc["features"] = sorted(set(sc["features"]) | {"reload"})
+    return sc
 
 
 def chain_of(dump, tid):
@@ -71,7 +116,7 @@ def run(ctx):
             obs = by_op.get(i)
             if obs is None:
                 break
-            if op[0] == "act" and op[1] == "error" and prev_dump is not None:
+            if op[0] == "act" and op[1] == "error" and op[2] == "p1" and prev_dump is not None:
                 ok = any(o.get("k") == "res" and o.get("ok") for o in obs)
                 tgt = [o for o in obs if o.get("k") == "target"]
                 if ok and tgt:
@@ -160,6 +205,42 @@ def run(ctx):
             ctx.cov["monitor_failures"] += 1
             ctx.violation(f"C06|{bad[0]}|{kind}", f"error {code} at op {i}: {bad[1]}; chain {[(m['tid'], m['catches'], m['processed']) for m in ch]}",
                           {"scenario": sc, "op": i, "chain": ch, "prediction": an, "transitions": trs})
+    # a sub-process error returned to a calling act with a matching catch: the handler runs once, the call completes, the flow goes on
+    for k, (sc, res) in enumerate(zip(scs, results)):
+        if not sc.get("expect_completed") or k in flagged:
+            continue
+        ctx.cov["evaluations"] += 1
+        stats["call_catch_runs"] = stats.get("call_catch_runs", 0) + 1
+        if res.get("panic") or res.get("crashed"):
+            ctx.violation("C06|engine-panic", f"engine panicked: {str(res.get('panic'))[:100]}", {"scenario": sc})
+            continue
+        last = None
+        perr = 0
+        for _, o in obs_of(res, {"dump", "pev"}):
+            if o.get("k") == "dump" and o.get("pid") == "p1" and not o.get("absent"):
+                last = o
+            if o.get("k") == "pev" and o.get("pid") == "p1" and o.get("chan") == "default" and o.get("ev") == "error":
+                perr += 1
+        ctx.nontrivial([sc["models"], sc["ops"]])
+        if last is None:
+            continue
+        st = {}
+        for t in last["tasks"]:
+            st.setdefault(t["nid"], []).append(t["state"])
+        declared_h1 = any(x.get("id") == "h1" for c in _catches_of(sc["models"][0], "call1") for x in c.get("steps", []))
+        bad = None
+        if perr:
+            bad = ("error-event-despite-catch", f"{perr} error event(s) of the caller although the calling act declares a matching catch")
+        elif last["state"] != "completed":
+            bad = ("caller-not-finished", f"everything was answered, the caller is {last['state']}: call1 {st.get('call1')}, h1 {st.get('h1')}, z {st.get('z')}")
+        elif declared_h1 and len(st.get("h1", [])) != 1:
+            bad = ("catch-steps-not-run-once", f"handler step h1 ran {len(st.get('h1', []))} times")
+        elif st.get("call1") != ["completed"]:
+            bad = ("catcher-not-completed", f"the calling act ended as {st.get('call1')}")
+        if bad:
+            flagged.add(k)
+            ctx.cov["monitor_failures"] += 1
+            ctx.violation(f"C06|call-catch|{bad[0]}", bad[1], {"scenario": sc})
     # every step of a catch that took an error runs exactly once by the end of the run (everything was answered)
     for k, ids in pending_catch.items():
         if k in flagged:
@@ -198,6 +279,22 @@ def run(ctx):
     ctx.cov["clauses_proved"] = ["first matching catch wins", "nearest open member with an unused matching catch takes the error; below marked, above untouched", "uncaught: all marked",
                                  "once-flag", "non-matching catch is a no-op", "caught error is silent (K1 emit table)"]
     ctx.cov["clauses_not_proved"] = ["the catching task completes and its successor starts (operational model correspondence + C01/C03 monitors)"]
+
+
+def _catches_of(w, nid):
+    found = []
+
+    def walk(x):
+        if isinstance(x, dict):
+            if x.get("id") == nid and "catches" in x:
+                found.extend(x["catches"])
+            for v in x.values():
+                walk(v)
+        elif isinstance(x, list):
+            for v in x:
+                walk(v)
+    walk(w)
+    return found
 
 
 def declared_catches(w, nid):
